@@ -332,22 +332,16 @@ theorem step_sigs_shape (hsrc : SourceOk) (w : World) (op : Op) : SigShape w.sig
     · split <;> exact .same
     · exact .same
   | vGet r v i =>
-    simp only [step]; split
-    · split
-      · split
-        · exact .same
-        · split
-          · exact .alias r _ rfl (.inr ⟨v, i, rfl⟩)
-          · exact .same
-      · split
-        · split
-          · exact .same
-          · split
-            · exact .alloc _ _ _ rfl
-            · exact .same
-        · exact .same
-    · exact .same
+    simp only [step]; (repeat' split) <;>
+      first
+      | exact .same
+      | exact .alias r _ rfl (.inr ⟨v, i, rfl⟩)
+      | exact .alloc _ _ _ rfl
   | vRead nm v qs => simp only [step]; split <;> exact .same
+  | vMultiOf r pre ins => simp only [step]; (repeat' split) <;> exact .same
+  | vFrom r kind v => simp only [step]; (repeat' split) <;> exact .same
+  | vStandOf r v => simp only [step]; (repeat' split) <;> exact .same
+  | vMPath r mode v => simp only [step]; (repeat' split) <;> exact .same
 
 /-! ### rows and stores are append-only; the sketch heap sees one sketch step or one fresh cell -/
 
@@ -461,6 +455,18 @@ theorem step_views_shape (hsrc : SourceOk) (w : World) (op : Op) : ViewShape w.v
     simp only [step]; (repeat' split) <;>
       first | exact .same | exact .alloc _ _ (by intro v c rc h; cases h)
   | vZipGroups r m k ss =>
+    simp only [step]; (repeat' split) <;>
+      first | exact .same | exact .alloc _ _ (by intro v c rc h; cases h)
+  | vMultiOf r pre ins =>
+    simp only [step]; (repeat' split) <;>
+      first | exact .same | exact .alloc _ _ (by intro v c rc h; cases h)
+  | vFrom r kind v =>
+    simp only [step]; (repeat' split) <;>
+      first | exact .same | exact .alloc _ _ (by intro v c rc h; cases h)
+  | vStandOf r v =>
+    simp only [step]; (repeat' split) <;>
+      first | exact .same | exact .alloc _ _ (by intro v c rc h; cases h)
+  | vMPath r mode v =>
     simp only [step]; (repeat' split) <;>
       first | exact .same | exact .alloc _ _ (by intro v c rc h; cases h)
   | vSelect r v kw =>
@@ -937,48 +943,51 @@ theorem select_shares' (w : World) (vc vc' : ViewCell) (kw : Sel)
     (h : selectOutcome w vc kw = .fresh vc') :
     vc'.kind = vc.kind ∧ (∀ x, x ∈ vc'.sigs → x ∈ vc.sigs) ∧ (∀ x, x ∈ vc'.rows → x ∈ vc.rows) ∧
     (vc.kind = .lazy → vc'.db = vc.db) ∧ (vc.kind.onDisk = true → vc'.store = vc.store) ∧
-    vc'.picks = [] ∧ vc'.vals = [] := by
+    vc'.picks = [] ∧ (∀ x, x ∈ vc'.vals → x ∈ vc.vals) := by
   unfold selectOutcome at h
   cases hk : vc.kind <;> simp only [hk] at h
   case linear =>
     split at h
     · cases h
     · next l hl =>
-      injection h with h; subst h
-      refine ⟨rfl, ?_, by simp, by simp, by simp [VKind.onDisk], rfl, rfl⟩
-      intro x hx
-      simp only [List.mem_map] at hx
-      obtain ⟨p, hp, rfl⟩ := hx
-      have := filterSel_subset _ _ _ _ hl p hp
-      simp only [List.mem_filterMap] at this
-      obtain ⟨c, hc, hcp⟩ := this
-      cases hcc : w.sigs.cells[c]? with
-      | none => simp [hcc] at hcp
-      | some x => simp [hcc] at hcp; subst hcp; exact hc
+      split at h
+      · cases h
+      · next vs hvs =>
+        injection h with h; subst h
+        refine ⟨rfl, ?_, by simp, by simp, by simp [VKind.onDisk], rfl, filterSel_subset _ _ _ _ hvs⟩
+        intro x hx
+        simp only [List.mem_map] at hx
+        obtain ⟨p, hp, rfl⟩ := hx
+        have := filterSel_subset _ _ _ _ hl p hp
+        simp only [List.mem_filterMap] at this
+        obtain ⟨c, hc, hcp⟩ := this
+        cases hcc : w.sigs.cells[c]? with
+        | none => simp [hcc] at hcp
+        | some x => simp [hcc] at hcp; subst hcp; exact hc
   case lazy =>
     split at h
     · cases h
     · injection h with h; subst h
-      exact ⟨rfl, by simp, by simp, by simp, by simp [VKind.onDisk], rfl, rfl⟩
+      exact ⟨rfl, by simp, by simp, by simp, by simp [VKind.onDisk], rfl, by simp⟩
   case zipnm =>
     split at h
     · injection h with h; subst h
-      exact ⟨rfl, by simp, by simp, by simp, by simp, rfl, rfl⟩
+      exact ⟨rfl, by simp, by simp, by simp, by simp, rfl, by simp⟩
     · injection h with h; subst h
-      exact ⟨rfl, by simp, by simp, by simp, by simp, rfl, rfl⟩
+      exact ⟨rfl, by simp, by simp, by simp, by simp, rfl, by simp⟩
     · split at h
       · cases h
       · injection h with h; subst h
-        exact ⟨rfl, by simp, by simp, by simp, by simp, rfl, rfl⟩
+        exact ⟨rfl, by simp, by simp, by simp, by simp, rfl, by simp⟩
   case zipm =>
     injection h with h; subst h
-    exact ⟨rfl, by simp, fun x hx => (List.mem_filter.mp hx).1, by simp, by simp, rfl, rfl⟩
+    exact ⟨rfl, by simp, fun x hx => (List.mem_filter.mp hx).1, by simp, by simp, rfl, by simp⟩
   case multi =>
     injection h with h; subst h
-    exact ⟨rfl, by simp, fun x hx => (List.mem_filter.mp hx).1, by simp, by simp, rfl, rfl⟩
+    exact ⟨rfl, by simp, fun x hx => (List.mem_filter.mp hx).1, by simp, by simp, rfl, by simp⟩
   case standalone =>
     injection h with h; subst h
-    exact ⟨rfl, by simp, fun x hx => (List.mem_filter.mp hx).1, by simp, by simp, rfl, rfl⟩
+    exact ⟨rfl, by simp, fun x hx => (List.mem_filter.mp hx).1, by simp, by simp, rfl, by simp⟩
   case sbt =>
     split at h
     · cases h
@@ -997,7 +1006,7 @@ theorem select_shares' (w : World) (vc vc' : ViewCell) (kw : Sel)
       · split at h
         · cases h
         · injection h with h; subst h
-          exact ⟨rfl, by simp, by simp, by simp, by simp, rfl, rfl⟩
+          exact ⟨rfl, by simp, by simp, by simp, by simp, rfl, by simp⟩
   case lcasql =>
     split at h
     · cases h
@@ -1006,6 +1015,6 @@ theorem select_shares' (w : World) (vc vc' : ViewCell) (kw : Sel)
       · split at h
         · cases h
         · injection h with h; subst h
-          exact ⟨rfl, by simp, by simp, by simp, by simp, rfl, rfl⟩
+          exact ⟨rfl, by simp, by simp, by simp, by simp, rfl, by simp⟩
 
 end Sm.Obj
